@@ -39,7 +39,7 @@
 
 struct MacroData
 {
-  int8_t param_count; // number of macro parameters
+  uint8_t param_count; // number of macro parameters
   int8_t name_len;    // length of the macro name
   int16_t value_len;  // length of the macro
   char data[];        // name[], value[]
